@@ -48,6 +48,8 @@ class _Sock(object):
         self.stop_sets_running = False
 
     def recv(self, n=1024):
+        while self.script and callable(self.script[0]):
+            self.script.pop(0)()                # something the application does between two reads
         if self.script:
             x = self.script.pop(0)
             if isinstance(x, BaseException):
@@ -94,7 +96,9 @@ class _Conn(object):
         Synchronous stream handlers run it inside ONE handle() invocation, as in production."""
         out = []
         for it in items:
-            if isinstance(it, BaseException):
+            if callable(it):
+                it()                        # something the application does between two reads (e.g. adds a unit)
+            elif isinstance(it, BaseException):
                 out.extend(self.feed(None, fault=it))
             else:
                 out.extend(self.feed(it))
@@ -297,7 +301,7 @@ class _SyncStream(_Conn):
     def run_script(self, items):
         if self.closed:
             return []
-        self.sock.script = [it if isinstance(it, BaseException) else bytes(it) for it in items]
+        self.sock.script = [it if isinstance(it, BaseException) or callable(it) else bytes(it) for it in items]
         self.sock.eof_seen = False
         self.h.running = True
         try:
@@ -340,7 +344,7 @@ class _SyncSerial(_Conn):
 
     def run_script(self, items):
         port = self.srv.port
-        port.script = [it if isinstance(it, BaseException) else bytes(it) for it in items]
+        port.script = [it if isinstance(it, BaseException) or callable(it) else bytes(it) for it in items]
         h = self.srv.obj.handler
         h.running = True
         try:
